@@ -75,6 +75,8 @@ def result(obs, findings, nt, labels, *, hang_is_violation: bool = False, prop: 
 
 
 def exhaustive_jobs(tier: str, shards: int = 4) -> list[dict]:
+    if tier != 'quick':
+        shards = 10
     return [{'engine': 'exhaustive-small', 'shard': i, 'shards': shards, 'hashseed': i % 8} for i in range(shards)]
 
 
@@ -97,4 +99,5 @@ def run_exhaustive_job(rec, job: dict, judge, *, failing: bool = False, cached: 
         it = gen()
     else:
         it = exhaustive.small_specs(3 if q else 4, types=('N1', 'NN') if q else ('N1', 'N2', 'NN'))
-    exhaustive.run_exhaustive(rec, 'exhaustive-small', it, judge, job['shard'], job['shards'], idle_rounds=0 if q else 1)
+    # idle polling rounds multiply the schedule tree about fivefold: they are enumerated in the thorough tier for the plain variant only
+    exhaustive.run_exhaustive(rec, 'exhaustive-small', it, judge, job['shard'], job['shards'], idle_rounds=1 if (not q and not failing and not cached) else 0)
